@@ -138,12 +138,26 @@ def check_case(ctx, batch, tag, nodes, root, big=False, opts=D.OPTS):
     if len(bocs) == len(D.OPTS) == len(opts):
         line = 'bocemitall ' + G.dag_line(nodes)[len('celldag '):] + f' {root}'
 
-        def on_emit(ans, bocs=bocs, inp=inp):
+        def on_emit(ans, bocs=bocs, inp=inp, nodes=nodes, listing0=listing0, libs=libs):
             want = 'ok ' + ' '.join(bocs[o].hex() for o in D.OPTS)
-            if ans != want:
-                k = next((i for i, (x, y) in enumerate(zip(ans, want)) if x != y), min(len(ans), len(want)))
-                ctx.corr_broken(f'model bytes != library bytes on {tag} (first difference at char {k}: model …{ans[max(0, k - 20):k + 40]} library …{want[max(0, k - 20):k + 40]}); input {str(inp)[:300]}')
-                ctx.count('corr_mismatch')
+            if ans == want:
+                return
+            # The library may use another traversal order: every VALID order conforms (c04_conforms_any_order), and validity of
+            # the library's order is what the strict readers just checked.  Recover its order and compare the byte layout for it.
+            if listing0 is not None and ctx.driver_ok:
+                by_hash = {}
+                for i, c in enumerate(libs):
+                    if c is not None:
+                        by_hash.setdefault(c.hash, i)
+                order = [by_hash.get(r['hash']) for r in listing0['recs']]
+                if None not in order:
+                    ans2 = ctx.model.run(['bocemitord ' + G.dag_line(nodes)[len('celldag '):] + ' ' + '.'.join(map(str, order))])[0]
+                    if ans2 == want:
+                        ctx.count('order-differs-from-model-but-valid')
+                        return
+            k = next((i for i, (x, y) in enumerate(zip(ans, want)) if x != y), min(len(ans), len(want)))
+            ctx.corr_broken(f'model bytes != library bytes on {tag} (first difference at char {k}: model …{ans[max(0, k - 20):k + 40]} library …{want[max(0, k - 20):k + 40]}); input {str(inp)[:300]}')
+            ctx.count('corr_mismatch')
         batch.add(line, on_emit)
 
 
